@@ -469,6 +469,9 @@ where
             }
         });
 
+        #[cfg(pilota_verif)]
+        let mods = crate::verif_hook::Scheduled::new(mods);
+
         let mut pkgs: DashMap<Arc<[FastStr]>, String> = Default::default();
 
         let this = self.clone();
